@@ -355,7 +355,14 @@ class RRELZeroOrMore(RRELBase):
 
         def get_from_zero_or_more(obj, lookup_list, matched_path, first_element=False):
             assert self.start_locally() or self.start_at_root()  # or, not xor
-            if not allowed(obj, lookup_list, self):  # also adjusts visited objs
+            # An expression which starts at the model root only does not
+            # visit the object the search is started from.
+            visited_obj = obj
+            if first_element and not self.start_locally():
+                from textx import get_model
+
+                visited_obj = get_model(obj)
+            if not allowed(visited_obj, lookup_list, self):  # also adjusts visited objs
                 return  # recursion stopper
             if first_element:
                 if self.start_locally():
